@@ -77,7 +77,7 @@ func (d c11) Execute(c *core.Case) *core.Result {
 	}
 	res := &core.Result{}
 	keys := pwKeys(c.Config["nDev"])
-	refs := []string{mainRef, relRef, openRef}
+	refs := []string{mainRef, relRef, openRef, main2Ref}
 	withG := runPolicyCase(c, keys, nil, refs, nil)
 	without := runPolicyCase(c, keys, stripGlobal, refs, nil)
 	for _, r := range []*pwRun{withG, without} {
